@@ -2,11 +2,13 @@ module verifharness
 
 go 1.24.2
 
-require github.com/AdguardTeam/golibs v0.0.0-00010101000000-000000000000
+require (
+	github.com/AdguardTeam/golibs v0.0.0-00010101000000-000000000000
+	golang.org/x/net v0.39.0
+)
 
 require (
 	golang.org/x/exp v0.0.0-20250408133849-7e4ce0ab07d0 // indirect
-	golang.org/x/net v0.39.0 // indirect
 	golang.org/x/text v0.24.0 // indirect
 )
 
